@@ -463,7 +463,17 @@ def check_contract(
                 try:
                     good = env.eval(ptxt, senv)
                 except SpecPartial as e:
-                    spec_errors.append(str(e))
+                    # the clause reads something (a table entry, a field)
+                    # that no longer exists after the call: it does not
+                    # hold.  On the unchanged tree this never happens.
+                    if len(failures) < max_failures:
+                        failures.append(Failure(
+                            qual, ptxt, 'ensures', sc.desc, short(args),
+                            'clause undefined in the post-state (%s); '
+                            'effects=%r' % (
+                                str(e)[:160],
+                                [short(x) for x in sc.log[env.log0:]]),
+                        ))
                     continue
                 if not good and len(failures) < max_failures:
                     failures.append(Failure(
